@@ -20,13 +20,16 @@ def check(run):
         s = C09.spec_concat_empty(w)
         s.prop = 'C10'
         run.prove(s)
+    sa = C09.spec_assembly(('LRG', 'ELG', 'QSO'))
+    sa.prop = 'C10'
+    run.prove(sa)
     from contracts import hodk
     hodk.prove_kernels(run, 'C10', run.tier)
     run.discharge()
     C09.bounded(run, 'C10')
     run.extra['explanation'] = ('fast_concatenate proved for every thread count by the E1 engine; gen_cent and gen_sats proved against a postcondition that does not mention Nthread '
                                 '(host q with code c sits in row RK(c, q); lengths RK(c, H); lemmas RK_strict / RK_onto: every row written exactly once; prange footprints '
-                                'of distinct threads disjoint; gstart[t, c] = RK(c, hstart[t]) links count and fill pass); the assembly (gen_gals) is '
+                                'of distinct threads disjoint; gstart[t, c] = RK(c, hstart[t]) links count and fill pass); the assembly tail of gen_gals is proved under the fast_concatenate contract (its postcondition does not mention Nthread); the composed catalogue is '
                                 'checked by the bounded stand-in: bitwise identity across thread counts and equality with a thread-free sequential reference')
     run.assumptions += ['np.rint(np.linspace(0, H, T+1)).astype(int64) is non-decreasing from 0 to H (assumed library contract)',
                         'gen_cent / gen_sats: cumsum block contract and occupation functions as uninterpreted functions (see C09)']
